@@ -56,10 +56,35 @@ def seeds_table():
     return '\n'.join(out)
 
 
+def benign_table():
+    try:
+        res = json.load(open(os.path.join(ROOT, 'benign', 'RESULTS.json')))
+    except Exception:
+        return '(not run yet)'
+    readme = {}
+    for rd in glob.glob(os.path.join(ROOT, 'benign', '*', 'README.txt')):
+        area = os.path.basename(os.path.dirname(rd))
+        for line in open(rd):
+            m = re.match(r'\s*(\d+)\s*[:.)]\s*(.*)', line)
+            if m:
+                readme[f'{area}-{m.group(1)}'] = m.group(2).strip()
+    out = ['| refactoring | what | checks answering 0 / 2 / 1 | why a check could not decide |', '|---|---|---|---|']
+    tot = {'ok': 0, 'inconclusive': 0, 'FALSE-ALARM': 0}
+    for bid, r in sorted(res.items()):
+        ec = r.get('exit_codes', {})
+        n0 = sum(1 for v in ec.values() if v == 0); n2 = sum(1 for v in ec.values() if v == 2); n1 = sum(1 for v in ec.values() if v == 1)
+        tot[r.get('verdict', 'ok')] = tot.get(r.get('verdict', 'ok'), 0) + 1
+        why = '; '.join(x.split('note: ', 1)[-1][:110] for x in r.get('inconclusive_notes', [])[:1])
+        out.append(f"| {bid} | {readme.get(bid, '')[:150]} | {n0} / {n2} / {n1} | {why} |")
+    out.append('')
+    out.append('Totals: ' + ', '.join(f'{k}: {v}' for k, v in tot.items()))
+    return '\n'.join(out)
+
+
 def main():
     p = os.path.join(ROOT, 'DESIGN.md')
     s = open(p).read()
-    for tag, fn in (('STATUS', status_table), ('SEEDS', seeds_table)):
+    for tag, fn in (('STATUS', status_table), ('SEEDS', seeds_table), ('BENIGN', benign_table)):
         a, b = f'<!-- GEN:{tag} -->', f'<!-- /GEN:{tag} -->'
         if a in s and b in s:
             i, j = s.index(a) + len(a), s.index(b)
